@@ -303,7 +303,7 @@ def _build():
         ),
         lambda: [c06.C06()],
         nontrivial_fn=c06.nontrivial,
-        world_kw={"xy_p": 0.3, "int_ids_p": 0.1},
+        world_kw={"xy_p": 0.3, "int_ids_p": 0.1, "ring_p": 0.15},
         runs={"quick": 4000, "thorough": 120000},
         assumptions=["waveform sample values come from the real code (C16's business)", "per-atom phase is only asserted at instants where exactly one pulse acts on the atom in that basis"],
         expected_probes=["eom_idle_instants", "extended_observation", "extended_in_eom", "atom_view_checked", "xy_slm_mask_rendered", "xy_pulse_straddles_mask_end", "dmm_weighted"],
